@@ -185,7 +185,7 @@ def replay(r):
         # on curated skeletons (all modifier types, shared names, different bin counts), unbatched and with two batch rows
         out = {"reproduced": False, "disagreements": []}
         for sk in ("all-seven-types", "2c-different-nbins-staterror", "1c2s-normsys-histosys-shared-name", "shapefactor-shared-equal-bins", "mixed-constraint-widths"):
-            for batch, variant in ((None, "default"), (2, "default"), (None, "clip"), (2, "clip")):
+            for batch, variant in ((None, "default"), (2, "default"), (None, "clip"), (2, "clip"), (None, "clipbin"), (2, "clipbin"), (1, "clipbin")):
                 try:
                     res = native_compare(dict(K.CURATED)[sk], variant=variant, what="expected", batch=batch)
                 except Exception as e:           # the real code raising on a well-formed model is a reproduction, too
